@@ -932,7 +932,55 @@ func cmpTerm(op token.Token, ta, tb string) Val {
 	return nil
 }
 
+func isSymS(v Val) bool { s, ok := v.(Sym); return ok && s.s == 'S' }
+
+func toPStr(v Val) (PStr, bool) {
+	switch x := v.(type) {
+	case PStr:
+		return x, true
+	case string:
+		if x == "" {
+			return PStr{}, true
+		}
+		return PStr{[]interface{}{x}}, true
+	case Sym:
+		if x.s == 'S' {
+			return PStr{[]interface{}{x}}, true
+		}
+	}
+	return PStr{}, false
+}
+
 func (w *World) binop(t *Thread, op token.Token, a, b Val, ot, rt types.Type) Val {
+	_, pa := a.(PStr)
+	_, pb := b.(PStr)
+	if pa || pb || (op == token.ADD && (isSymS(a) || isSymS(b))) {
+		x, ok1 := toPStr(a)
+		y, ok2 := toPStr(b)
+		if ok1 && ok2 {
+			switch op {
+			case token.ADD:
+				return PStr{append(append([]interface{}(nil), x.parts...), y.parts...)}
+			case token.EQL, token.NEQ:
+				// only comparisons with a text that is certainly non-empty against "" are decided
+				nonEmpty := func(p PStr) bool {
+					for _, q := range p.parts {
+						if s, ok := q.(string); ok && s != "" {
+							return true
+						}
+						if _, ok := q.(opaqueNum); ok {
+							return true
+						}
+					}
+					return false
+				}
+				if (len(x.parts) == 0 && nonEmpty(y)) || (len(y.parts) == 0 && nonEmpty(x)) {
+					return op == token.NEQ
+				}
+			}
+		}
+		panic(engErr("string operation " + op.String() + " on partially symbolic text"))
+	}
 	if fa, ok := a.(FSpec); ok {
 		return w.fspecOp(op, fa, b, true)
 	}
@@ -945,6 +993,14 @@ func (w *World) binop(t *Thread, op token.Token, a, b Val, ot, rt types.Type) Va
 		sort := sa.s
 		if !aSym {
 			sort = sb.s
+		}
+		if sort == 'S' {
+			if cs, ok := b.(string); ok && aSym {
+				w.noteStrConst(sa, cs)
+			}
+			if cs, ok := a.(string); ok && bSym {
+				w.noteStrConst(sb, cs)
+			}
 		}
 		ta, tb := term(a), term(b)
 		if c := cmpTerm(op, ta, tb); c != nil && (sort != 'S' || op == token.EQL || op == token.NEQ) && sort != 'B' {
